@@ -125,6 +125,10 @@ class Tr:
                     if (tya, tyb) != ('str', 'allowed'): raise U('membership', e)
                     t = '(opt_memb %s %s)' % (ta, tb)
                 return ('(negb %s)' % t if neg else t), 'bool'
+            if isinstance(op, (ast.Is, ast.IsNot)) and isinstance(b, ast.Constant) and b.value is None:
+                ta, tya = self.ex(a)
+                if tya not in ('allowed', 'optstr', 'optslot', 'optslots'): raise U('is None', e)
+                return ('(negb (is_some %s))' if isinstance(op, ast.Is) else '(is_some %s)') % ta, 'bool'
             if isinstance(op, (ast.Eq, ast.NotEq)):
                 (ta, tya), (tb, tyb) = self.ex(a), self.ex(b)
                 if (tya, tyb) == ('str', 'str'): t = '(beq %s %s)' % (ta, tb)
@@ -294,6 +298,7 @@ class Tr:
                 for a in s.exc.args: self.pure_msg(a)
                 return self.pack('Raise %s' % s.exc.func.id)
             raise U('raise', s)
+        if isinstance(s, ast.Pass): return self.stmts(rest)
         if isinstance(s, ast.Break): return self.pack('Break')
         if isinstance(s, ast.Continue): return self.pack('Continue')
         if isinstance(s, ast.If): return self.if_(s, rest)
